@@ -31,6 +31,7 @@ type Val struct {
 	Tup []Val      // tuple value
 	Fn  *ssa.Function // statically known function value (closure or func)
 	Bind []Val        // closure bindings
+	NoFacts bool      // derived from a bound variable of aggregate type: no heap type invariant applies
 }
 
 type acc struct {
@@ -59,6 +60,7 @@ type Obligation struct {
 	Extra   []string // extra assertions (after prefix)
 	ExpectSat bool   // vacuity cover query: must be SAT
 	Relaxed   bool   // counterexample search without quantified assumptions
+	Consistency bool // full-context vacuity guard: must NOT be unsat
 }
 
 // Ctx is the verification context of one top-level function (or lemma).
@@ -91,6 +93,9 @@ type Ctx struct {
 	axiomsUsed []string
 	frontier   map[string]string // heap version -> allocation frontier when it was created
 	frameOn      bool
+	asciiLits    []string
+	utf8Declared bool
+	lastPi, lastPiInv string
 	frameAllowed map[string][]string
 	frameAllowedCond map[string][][2]string
 	frameWhole   map[string]bool
@@ -545,8 +550,18 @@ func (c *Ctx) strLit(s string) string {
 			c.Decls = append(c.Decls, fmt.Sprintf("(assert (not (= %s %s)))", name, on))
 		}
 	}
-	// literal identity: a string equal in length and content is this literal
-	// is not assumed (incomplete but sound).
+	ascii := true
+	for i := 0; i < len(s); i++ {
+		if s[i] >= 0x80 {
+			ascii = false
+		}
+	}
+	if ascii {
+		c.asciiLits = append(c.asciiLits, name)
+		if c.utf8Declared {
+			c.Decls = append(c.Decls, "(assert (uf$utf8valid (strbytes "+name+")))")
+		}
+	}
 	return name
 }
 
@@ -607,10 +622,15 @@ func (c *Ctx) typeFacts(x string, t types.Type, alloc string) string {
 	case *types.Slice:
 		return c.sliceFacts(x, alloc)
 	case *types.Pointer, *types.Map:
-		if alloc != "" {
-			return fmt.Sprintf("(and (<= 0 %s) (< %s %s))", x, x, alloc)
+		top := ""
+		if p, ok := u.(*types.Pointer); ok && isStruct(p.Elem()) && !c.W.embeddedTypes()[types.TypeString(p.Elem(), nil)] {
+			// no type embeds this struct by value: the pointer designates an allocated object
+			top = fmt.Sprintf(" (= (mod %s %s) 0)", x, refStride)
 		}
-		return fmt.Sprintf("(<= 0 %s)", x)
+		if alloc != "" {
+			return fmt.Sprintf("(and (<= 0 %s) (< %s %s)%s)", x, x, alloc, top)
+		}
+		return fmt.Sprintf("(and (<= 0 %s)%s)", x, top)
 	case *types.Interface:
 		fs := fmt.Sprintf("(and (<= 0 (if.typ %s)) (=> (= (if.typ %s) 0) (= (if.ref %s) 0))", x, x, x)
 		if alloc != "" {
@@ -645,7 +665,7 @@ func (c *Ctx) sliceFacts(x string, alloc string) string {
 		}
 		return fs + ")"
 	}
-	fs := fmt.Sprintf("(and (<= 0 (sl.len %s)) (<= (sl.len %s) (sl.cap %s)) (<= (sl.cap %s) %s) (<= 0 (sl.off %s)) (<= (sl.off %s) %s) (<= 0 (sl.base %s)) (=> (= (sl.base %s) 0) (= (sl.cap %s) 0))", x, x, x, x, maxLenStr, x, x, maxLenStr, x, x, x)
+	fs := fmt.Sprintf("(and (<= 0 (sl.len %s)) (<= (sl.len %s) (sl.cap %s)) (<= (sl.cap %s) %s) (<= 0 (sl.off %s)) (<= (sl.off %s) %s) (<= 0 (sl.base %s)) (=> (= (sl.base %s) 0) (and (= (sl.cap %s) 0) (= (sl.off %s) 0)))", x, x, x, x, maxLenStr, x, x, maxLenStr, x, x, x, x)
 	if alloc != "" {
 		fs += fmt.Sprintf(" (< (sl.base %s) %s)", x, alloc)
 	}
@@ -663,12 +683,10 @@ func (c *Ctx) prelude() string {
 	sb.WriteString("(declare-sort Bytes 0)\n")
 	if c.Mode == ModeInt {
 		sb.WriteString("(declare-fun slen (Str) Int)\n(declare-fun sat (Str Int) Int)\n(declare-fun ssub (Str Int Int) Str)\n(declare-fun scat (Str Str) Str)\n")
-		sb.WriteString("(declare-fun kind (Int) Int)\n")
 		sb.WriteString("(declare-fun ix (Int Int) Int)\n(assert (forall ((a Int) (b Int)) (! (= (ix a b) (+ a b)) :pattern ((ix a b)))))\n")
 	} else {
 		sb.WriteString("(declare-fun ix ((_ BitVec 64) (_ BitVec 64)) (_ BitVec 64))\n(assert (forall ((a (_ BitVec 64)) (b (_ BitVec 64))) (! (= (ix a b) (bvadd a b)) :pattern ((ix a b)))))\n")
 		sb.WriteString("(declare-fun slen (Str) (_ BitVec 64))\n(declare-fun sat (Str (_ BitVec 64)) (_ BitVec 8))\n")
-		sb.WriteString("(declare-fun kind (Int) Int)\n")
 	}
 	return sb.String()
 }
